@@ -203,6 +203,181 @@ def replay(ctx, path):
     return 1 if bad else 0
 
 
+# ------------------------------------------------------------------ environment-level properties
+
+def envjob(name, kind, seed, count, **kw):
+    args = ["env-random", "--kind", str(kind), "--seed", str(seed), "--count", str(count)]
+    for k, v in kw.items():
+        args += ["--" + k, str(v)]
+    return {"name": name, "args": args}
+
+
+def env_jobs(pid, tier, seed):
+    q = tier == "quick"
+    n = (lambda a, b: a if q else b)
+    if pid == "C08":
+        return [envjob("env-batches", 0, seed, n(1200, 30000), maxbatch=6, rounds=6),
+                envjob("menv-batches", 1, seed + 1, n(1200, 30000), maxbatch=7, rounds=5),
+                envjob("env-bigstep-smallbatch", 0, seed + 2, n(600, 10000), maxbatch=3, rounds=8, smallstep=1)]
+    if pid == "C10":
+        return [envjob("env-submissions", 0, seed, n(1200, 30000), maxbatch=9, rounds=5),
+                envjob("menv-submissions", 1, seed + 1, n(1200, 30000), maxbatch=9, rounds=5)]
+    if pid == "C11":
+        return [envjob("env-asym", 0, seed, n(1200, 30000), maxbatch=6, rounds=7, asym=1),
+                envjob("menv-asym", 1, seed + 1, n(1200, 30000), maxbatch=6, rounds=6, asym=1),
+                envjob("env-mixed", 0, seed + 2, n(800, 20000), maxbatch=6, rounds=7)]
+    if pid == "C14":
+        return [envjob("market-direct", 2, seed, n(1500, 40000)),
+                envjob("menv-shuffled", 1, seed + 1, n(1200, 30000), maxbatch=8, rounds=5)]
+    if pid == "C15":
+        return [envjob("env-distinct-batches", 0, seed, n(2500, 120000), maxbatch=n(16, 64), rounds=4, distinct=1, toggles=0),
+                envjob("menv-distinct-batches", 1, seed + 1, n(2500, 120000), maxbatch=n(16, 64), rounds=4, distinct=1, toggles=0),
+                envjob("env-mixed-kinds", 0, seed + 2, n(1000, 40000), maxbatch=8, rounds=5)]
+    return []
+
+
+ENV_MON = {"C08": 8, "C10": 10, "C11": 11, "C14": 14}
+ECATS = {8: "book observations (orders, trades, market data, arrival times)", 32: "level-2 snapshot handed to agents",
+         64: "per-step traded volumes", 128: "recorded series", 256: "generator state"}
+
+
+def classify_env(pid, r, after_resched=False):
+    """after_resched: an earlier step of this script was processed in a different (but valid) schedule than the
+    model predicted, so model and implementation states differ from there on for a reason that concerns C15 only."""
+    k = r[0]
+    if k == 0:
+        return "tie"
+    if k == 6:
+        return "concrete"          # two accessors of the same data disagree
+    if k == 1:
+        return ("concrete" if r[1] == 0 else "tie") if not after_resched else None
+    if k == 5:
+        return "concrete" if ENV_MON.get(pid) == r[1] else None
+    if k == 7:
+        if r[1] == 0:              # no schedule of the batch explains what the step did
+            return "concrete" if pid in ("C08", "C14") else ("tie" if pid == "C15" else None)
+        return "tie" if pid == "C15" else None
+    if k in (2, 3):
+        if after_resched and pid != "C15":
+            return None
+        cats = r[1] if len(r) > 1 else 0
+        proj = {"C08": 8 | 64 | 256, "C10": 8 | 32 | 64 | 128, "C11": 64 | 128 | 32, "C14": 8 | 64, "C15": 8 | 256}.get(pid, 511)
+        if not (k == 2 or cats & proj):
+            return None
+        return "tie"
+    return None
+
+
+def describe_env(r):
+    if r[0] == 6:
+        return "two accessors of the same recorded data disagree (see the F line of the replay)"
+    if r[0] == 7:
+        return ["no processing schedule of the step's batch explains the resulting books",
+                "the step was processed in a different (valid) schedule than rand's shuffle of the queue predicts",
+                "the step's books differ from the predicted schedule's (batch too large to search other schedules)"][r[1]]
+    if r[0] == 3:
+        return "implementation observation differs from the model's: %s (first differing field index %d)" % (
+            ", ".join(v for k, v in ECATS.items() if r[1] & k) or "other", r[2])
+    return describe(r)
+
+
+RULE_ENV = ("scripts = seeded random rounds of submissions (limit/market orders, cancels, modifies, several instructions for one order, "
+            "instructions for orders created in the same step, off-grid creations, trading toggles) followed by a step, on Env<1|3|10|24>, "
+            "MarketEnv<1..4 assets> and Market<1..4>, with the generator seeded per script; executed on the rebuilt crates and on the extracted "
+            "model (which computes the exact shuffle from the seed); every observable (each book's full observation incl. arrival/end times, the "
+            "cached level-2 data, every recorded series, the per-step traded volumes, the next raw draw of the generator) compared after every "
+            "operation, monitors run on the implementation's observations. non-trivial = a script with at least one step that carried >= 2 instructions.")
+
+
+def run_env_property(ctx, theorem_file):
+    pid = ctx.pid
+    if os.environ.get("VERIF_NO_PROOF") != "1":
+        common.proof_obligations(ctx, theorem_file)
+    jobs = env_jobs(pid, ctx.tier, ctx.seed)
+    reports, stats = common.run_jobs(ctx, jobs)
+    common.coverage_from_stats(ctx, stats, RULE_ENV)
+    for k in ("operation_mix", "final_order_status_mix", "trades", "price_errors"):
+        ctx.coverage.pop(k, None)
+    for name, st in stats.items():
+        try:
+            d = {}
+            for f in sorted(__import__("glob").glob(os.path.join(ctx.work, name + ".*.stats"))):
+                x = json.load(open(f))
+                for kk in ("steps", "overflow_batches"):
+                    d[kk] = d.get(kk, 0) + x.get(kk, 0)
+                d["batch_size_histogram"] = [a + b for a, b in zip(d.get("batch_size_histogram", [0] * 9), x["batch_size_histogram"])]
+                d["env_op_kinds"] = [a + b for a, b in zip(d.get("env_op_kinds", [0] * 9), x["env_op_kinds"])]
+            ctx.coverage["jobs"][name].update(d)
+        except Exception:
+            pass
+    resched = {}
+    for r in reports:
+        if r["r"][0] == 7 and r["r"][1] == 1:
+            key = (r["job"]["name"], r["script"])
+            resched[key] = min(resched.get(key, 10 ** 9), r["op"])
+    own = []
+    for r in reports:
+        key = (r["job"]["name"], r["script"])
+        after = key in resched and r["op"] >= resched[key]
+        c = classify_env(pid, r["r"], after)
+        # a direct per-asset operation that differs from the stand-alone book step is C14 itself
+        if pid == "C14" and c == "tie" and r["r"][0] == 3 and r["job"]["name"] == "market-direct":
+            c = "concrete"
+        own.append((c, r))
+    concrete = [r for c, r in own if c == "concrete"]
+    tie = [r for c, r in own if c == "tie"]
+    ctx.coverage["reports_total"] = len(reports)
+    if ctx.coverage.get("evaluations", 0) == 0:
+        raise CheckFailure("no script was executed")
+    emitted, seen = 0, set()
+    for group, nofail in ((concrete, False), (tie, True)):
+        if nofail and concrete:
+            break
+        group.sort(key=lambda r: r["op"])
+        for r in group:
+            key = tuple(r["r"][:3]) if r["r"][0] == 5 else (r["r"][0],)
+            if key in seen or emitted >= 3:
+                continue
+            seen.add(key)
+            import subprocess
+            out = subprocess.run([common.DRIVE] + r["job"]["args"] + ["--only", str(r["script"])], env=common.ENV,
+                                 stdout=subprocess.PIPE, text=True).stdout
+            lines = [l for l in out.splitlines() if l[:2] in ("M ", "O ", "F ")]
+            rp = ctx.write_replay({
+                "kind": "failing-input" if not nofail else "correspondence-broken",
+                "what": describe_env(r["r"]),
+                "broken": None if not nofail else "correspondence impl-vs-model (Spec.EnvRunner.es_step_fn) behind the theorems of coq/%s" % theorem_file,
+                "job": r["job"]["name"], "script_id": r["script"], "op_index": r["op"], "script": lines[: 2 + 3 * 400],
+                "regenerate": " ".join([common.DRIVE] + r["job"]["args"] + ["--only", str(r["script"]), "|", common.RUNNER]),
+            })
+            ctx.violations.append((rp, nofail))
+            emitted += 1
+    return 1 if ctx.violations else 0
+
+
+def run_c15(ctx):
+    import subprocess
+    rc = run_env_property(ctx, "Properties/C15.v")
+    q = ctx.tier == "quick"
+    cmd = [common.DRIVE, "shuffle-stats", "--small", "200000" if q else "2000000", "--large", "20000" if q else "200000", "--seed", str(ctx.seed)]
+    out = subprocess.run(cmd, env=common.ENV, stdout=subprocess.PIPE, text=True).stdout
+    fails = [l[9:] for l in out.splitlines() if l.startswith("STATFAIL ")]
+    stats = [l[6:] for l in out.splitlines() if l.startswith("STATS ")]
+    if not stats:
+        raise CheckFailure("shuffle statistics job did not finish", out[-2000:])
+    ctx.coverage["statistical_test_not_a_proof"] = {
+        "what": "the property's own test on the implementation: all n! schedules counted for batch sizes 2..6, position-by-item and pairwise-order "
+                "tables for 8..64, Env and 2-asset MarketEnv with mixed instruction kinds; Bernstein bound with union bound, false-alarm < 1e-9",
+        "tables": json.loads(stats[0]) if stats[0] else []}
+    if fails:
+        # a concrete statistical counter-example replaces any 'no-failing-input-found' report
+        ctx.violations = [v for v in ctx.violations if not v[1]]
+        for f in fails[:2]:
+            rp = ctx.write_replay({"kind": "failing-input", "what": f, "how_to_replay": " ".join(cmd)})
+            ctx.violations.append((rp, False))
+    return 1 if ctx.violations else rc
+
+
 def run_c07(ctx):
     rc = run_book_property(ctx, "Properties/C07.v")
     import subprocess
@@ -236,6 +411,11 @@ PROPS = {
     "C05": lambda ctx: run_book_property(ctx, "Properties/C05.v"),
     "C06": lambda ctx: run_book_property(ctx, "Properties/C06.v"),
     "C07": run_c07,
+    "C08": lambda ctx: run_env_property(ctx, "Properties/C08.v"),
+    "C10": lambda ctx: run_env_property(ctx, "Properties/C10.v"),
+    "C11": lambda ctx: run_env_property(ctx, "Properties/C11.v"),
+    "C14": lambda ctx: run_env_property(ctx, "Properties/C14.v"),
+    "C15": run_c15,
     "C12": lambda ctx: run_book_property(ctx, "Properties/C12.v"),
     "C13": lambda ctx: run_book_property(ctx, "Properties/C13.v"),
 }
